@@ -420,14 +420,28 @@ func generateOTP(secret string, counter uint64, digits otp.Digits, algo otp.Algo
 	return code, nil
 }
 
+// guard wraps an exported function so that a panic while handling its arguments
+// (syscall/js panics with "bad type flag" on values it has no type for, e.g. a BigInt)
+// is reported as an "error:" string instead of terminating the Go program.
+func guard(fn func(js.Value, []js.Value) any) js.Func {
+	return js.FuncOf(func(this js.Value, args []js.Value) (res any) {
+		defer func() {
+			if r := recover(); r != nil {
+				res = js.ValueOf(fmt.Sprintf("error: invalid argument: %v", r))
+			}
+		}()
+		return fn(this, args)
+	})
+}
+
 // registerFunctions registers all Go functions with JavaScript.
 func registerFunctions() {
 	log("Registering functions with JavaScript")
-	js.Global().Set("generateHOTP", js.FuncOf(generateHOTP))
-	js.Global().Set("generateTOTP", js.FuncOf(generateTOTP))
-	js.Global().Set("validateHOTP", js.FuncOf(validateHOTP))
-	js.Global().Set("validateTOTP", js.FuncOf(validateTOTP))
-	js.Global().Set("generateOTPURL", js.FuncOf(generateOTPURL))
+	js.Global().Set("generateHOTP", guard(generateHOTP))
+	js.Global().Set("generateTOTP", guard(generateTOTP))
+	js.Global().Set("validateHOTP", guard(validateHOTP))
+	js.Global().Set("validateTOTP", guard(validateTOTP))
+	js.Global().Set("generateOTPURL", guard(generateOTPURL))
 }
 
 func main() {
